@@ -155,6 +155,14 @@ func Harness_C12_hdr() {
 	case 1:
 		stream = append(stream, '\n')
 	}
+	if blank == 2 && len(stream) > 0 && nondetBool("cut-in-last-line") {
+		// the stream ends inside the header block, on a line without its
+		// terminator (one or both bytes of the line end are missing)
+		stream = stream[:len(stream)-1]
+		if crlf && nondetBool("cut-cr-too") {
+			stream = stream[:len(stream)-1]
+		}
+	}
 	bodyLen := 2
 	body := make([]byte, bodyLen)
 	for i := range body {
